@@ -303,11 +303,12 @@ def check(case, ctx):
     if not GC.all_finite(g1):
         ctx.event("discarded:nonfinite-default-run")
         return
-    amb = _report_ambiguous(ra, 1e-4, 1e-9 * amp, tol_sum) or _report_ambiguous(rb, 1e-4, 1e-9 * amp, tol_sum * scale)
-    if amb:
-        ctx.event("ambiguous:stopping-threshold")
-        return
     if (ra.num_iterations, bool(ra.converged)) != (rb.num_iterations, bool(rb.converged)):
+        # different stopping iterations are legitimate only when a stopping comparison lies within rounding noise of its threshold
+        amb = _report_ambiguous(ra, 1e-4, 1e-9 * amp, tol_sum) or _report_ambiguous(rb, 1e-4, 1e-9 * amp, tol_sum * scale)
+        if amb:
+            ctx.event("ambiguous:stopping-threshold")
+            return
         return ctx.fail("report-representation-dependent:" + tr, "default optimize(): (num_iterations, converged) = %r vs %r" % ((ra.num_iterations, ra.converged), (rb.num_iterations, rb.converged)))
     if compare(g1, g2, "after default optimize()"):
         return
